@@ -246,6 +246,13 @@ class SymCtx(_BaseCtx):
         except Exception as e:
             self._unexpected(target, type(e).__name__, e)
 
+    def call_joint(self, calls):
+        """calls: [(target, args, kwargs)] on dask-backed rasters; the lazy results are evaluated together in one graph (dask.compute(r1, r2, ...)).
+        -> list of DataArrays holding the jointly computed values"""
+        rets = [self.call(t, *a, **k) for (t, a, k) in calls]
+        ws = symda.compute(*[r.data for r in rets])
+        return [r._replace(w) for r, w in zip(rets, ws)]
+
     # ---- claims
     def close(self, a, b, tol=None):
         """a equals b (NaN matches NaN); with tol=(rtol, atol): |a-b| <= 2*(atol+rtol*|b|)"""
@@ -496,6 +503,18 @@ class ConcCtx(_BaseCtx):
             _copy_back(a, b)
         self.calls.append(target)
         return ret
+
+    def call_joint(self, calls):
+        if self.mode == 'shim':
+            rets = [self.call(t, *a, **k) for (t, a, k) in calls]
+            ws = symda.compute(*[r.data for r in rets])
+            return [r._replace(w) for r, w in zip(rets, ws)]
+        try:
+            return wire.worker().joint([('xrspatial.' + t.split(':')[0], t.split(':')[1], list(a), k) for (t, a, k) in calls])
+        except wire.RemoteError as e:
+            if getattr(self, '_expecting', 0):
+                raise
+            self._unexpected('joint:' + ','.join(t for (t, _, _) in calls), e.exc, e)
 
     def close(self, a, b, tol=None):
         a = _plain(a)
